@@ -11,6 +11,12 @@ CHECKS = {
  "C18": dict(level="exploration", engine="bex", technique="exhaustive small-scope enumeration of value trees by node count, of all byte strings <= L over the marker alphabet, of every prefix and field mutation, and of nesting families to the 16 MiB limit in worker processes",
    text="All values lal can encode (leaf/key boundary alphabets), all AMF0 trees up to N nodes from a reference encoder, every strict prefix of each, every byte string up to length L over the 12-symbol marker alphabet and every 16/32-bit field mutation of valid encodings are pushed through all 14 exported readers; nesting families are decoded at depths up to what fits in a 16 MiB message, each in a subprocess so that stack exhaustion (uncatchable) is observed. Exhaustive within those bounds.",
    note="Trusted: lib/ref/amf0.go. Equality is modulo null/undefined members (skipped by lal's readers by design). Agreement with the spec reader is only demanded for canonical inputs.", design="C18"),
+ "C09": dict(level="exploration", engine="bex", technique="exhaustive small-scope enumeration of frame length x flags x counters through the real Frame.Pack against a strict ISO 13818-1 reference demuxer",
+   text="Every payload length in dense windows (1..184*5 quick / 184*12 thorough, +-200 around the 65535 PES-length boundary and around 200 KiB) x key x PTS==DTS/!= x audio/video PID x incoming continuity counter, plus timestamp values around 2^30..2^33, is packed by the real Frame.Pack and parsed by a strict reference demuxer that checks every header bit, stuffing, PCR, PES header, payload identity and counters; PAT/PMT for all codec pairs with CRC; all 4-frame sequences over a 6-letter alphabet for cross-frame continuity.",
+   note="Trusted: lib/ref/ts.go. Payload bytes are opaque to Pack. Lengths outside the windows are not enumerated (the code has no length-dependent branch other than the first-packet capacity, the 184-byte remainder and the 65535 PES length).", design="C09"),
+ "C11": dict(level="exploration", engine="bex", technique="exhaustive small-scope enumeration of tag parameters, all WebSocket lengths 0..70000, and all short tag sequences through the real file writer/reader and HTTP-FLV / WS-FLV sub sessions against reference FLV and RFC 6455 parsers",
+   text="Every (type, boundary length, boundary timestamp) tag through PackHttpflvTag / RtmpMsg2FlvTag / ReadTag / FlvTag2RtmpMsg / ModTagTimestamp; MakeWsFrameHeader for every length 0..70000 plus large values; every sequence of <= 4 tags over a 6-letter alphabet written by the real FlvFileWriter (read back by FlvFileReader) and by real httpflv.SubSession objects (plain and WebSocket) over an in-memory connection, parsed by reference parsers.",
+   note="Trusted: lib/ref/flv.go. Sub-session write queue forced to size 0 (synchronous). Live-path FLV output of a whole group is additionally covered by C01.", design="C11"),
 }
 NOT_YET = "check not built yet in this session (work in progress; see DESIGN.md section for the planned model-checking design)"
 
